@@ -282,5 +282,33 @@ class TransformationPerformer:
     self._original_op_id_map = []
     self._added_op_id_map = []
     self._create_op_id_map(tflite_model)
+    original_outputs = [
+        list(subgraph.outputs) for subgraph in tflite_model.subgraphs
+    ]
     for transformation_inst in transformation_instructions.values():
       self._apply_transformations(transformation_inst, tflite_model)
+    self._update_signature_outputs(tflite_model, original_outputs)
+
+  def _update_signature_outputs(
+      self,
+      tflite_model: schema_py_generated.ModelT,
+      original_outputs: list[list[int]],
+  ):
+    """Keep signature outputs in sync with the (rewired) subgraph outputs.
+
+    Args:
+      tflite_model: the transformed tflite model
+      original_outputs: subgraph outputs before the transformations, per
+        subgraph
+
+    Returns:
+      None, modifies the signature defs of tflite_model in place
+    """
+    for signature_def in tflite_model.signatureDefs or []:
+      subgraph_id = signature_def.subgraphIndex
+      new_outputs = tflite_model.subgraphs[subgraph_id].outputs
+      for tensor_map in signature_def.outputs or []:
+        for position, tensor_id in enumerate(original_outputs[subgraph_id]):
+          if tensor_map.tensorIndex == tensor_id:
+            tensor_map.tensorIndex = new_outputs[position]
+            break
